@@ -1056,11 +1056,20 @@ def rule_rekey(ctx, rule="R3", consequence=""):
         sn = cfg.nodes_containing(st)[0]
         # the tests that guard the re-keying statement
         guards = []
-        p_ = getattr(rekeys[0], "_parent", None)
-        while p_ is not None and p_ is not setter.node:
+        child, p_ = rekeys[0], getattr(rekeys[0], "_parent", None)
+        while p_ is not None:
             if isinstance(p_, ast.If):
                 guards += [x for x in cfg.node_of(p_) if x.kind == "test"]
-            p_ = getattr(p_, "_parent", None)
+            # … and the guard clauses before it (`if not is_initializer: return` decides the same thing by leaving)
+            for fld in ("body", "orelse"):
+                blk = getattr(p_, fld, None)
+                if isinstance(blk, list) and child in blk:
+                    for prev in blk[: blk.index(child)]:
+                        if isinstance(prev, ast.If) and not prev.orelse and prev.body and isinstance(prev.body[-1], ast.Return):
+                            guards += [x for x in cfg.node_of(prev) if x.kind == "test"]
+            if p_ is setter.node:
+                break
+            child, p_ = p_, getattr(p_, "_parent", None)
         rn = cfg.nodes_containing(rekeys[0])[0]
         after = cfg.dominates(sn, rn) or any(cfg.dominates(sn, g) for g in guards)
         if guards and after:
